@@ -1,13 +1,36 @@
+from collections.abc import Iterator
+
 from xdsl.context import Context
-from xdsl.dialects import builtin, scf
+from xdsl.dialects import builtin, memref, scf
 from xdsl.dialects.memref import DeallocOp
-from xdsl.ir import Block, Operation
+from xdsl.ir import Block, Operation, OpResult, SSAValue, Use
 from xdsl.passes import ModulePass
 from xdsl.rewriter import InsertPoint, Rewriter
 
 from snaxc.accelerators.acc_context import AccContext
 from snaxc.dialects import snax
 from snaxc.util.dispatching_rules import dispatch_to_compute, dispatch_to_dm
+
+
+def is_view_op(op: Operation) -> bool:
+    """Operations that produce another view on the memory of their first operand."""
+    return isinstance(op, memref.SubviewOp | memref.CastOp | memref.MemorySpaceCastOp | snax.LayoutCast)
+
+
+def get_view_source(value: SSAValue) -> SSAValue:
+    """Follow views (subviews, casts) back to the value they are a view of."""
+    while isinstance(value, OpResult) and is_view_op(value.op):
+        value = value.op.operands[0]
+    return value
+
+
+def get_uses_through_views(value: SSAValue) -> Iterator[Use]:
+    """Get all uses of the value, and of all views of the value."""
+    for use in value.uses:
+        yield use
+        if is_view_op(use.operation) and use.index == 0:
+            for result in use.operation.results:
+                yield from get_uses_through_views(result)
 
 
 def is_in_block(op: Operation, block: Block | None) -> bool:
@@ -78,7 +101,8 @@ class InsertSyncBarrier(ModulePass):
             # check all operands of current op
             for operand in [*op_in_module.operands, *op_in_module.results]:
                 # check all ops that use the operand -> dependency with current op
-                for op_use in operand.uses:
+                # ops that use another view of the same memory depend on the current op as well
+                for op_use in get_uses_through_views(get_view_source(operand)):
                     # now check if op is dispatched to a specific core and the result
                     # is used on another core - if yes, there must be a synchronisation
                     # barrier between the two ops
